@@ -64,9 +64,20 @@ def regen_table(group):
     if old != src:
         with open(path, 'w') as f:
             f.write(src)
-        if REPO != '/repo' and old is not None:
-            # a run against a scratch tree (REPO_ROOT) must not leave its tables behind in the shared Lean tree
-            _RESTORE.append((path, old))
+    if REPO != '/repo':
+        # a run against a scratch tree (REPO_ROOT) must not leave its tables behind in the shared Lean tree:
+        # when the run is over put back the committed table (falling back to what was there before)
+        back = old
+        try:
+            rel = os.path.relpath(path, VERIF)
+            p = subprocess.run(['git', '-C', VERIF, 'show', 'HEAD:' + rel], stdout=subprocess.PIPE,
+                               stderr=subprocess.DEVNULL, timeout=30)
+            if p.returncode == 0 and p.stdout:
+                back = p.stdout.decode()
+        except Exception:  # noqa: BLE001
+            pass
+        if back is not None and back != src:
+            _RESTORE.append((path, back))
 
 
 def theorems_in(relpath):
@@ -192,7 +203,14 @@ def _prepare(prop, out):
             continue
         rc, log = lake('BtcVerif.Tables.' + g)
         if rc != 0:
-            errs = '\n'.join(l for l in log.splitlines() if 'error' in l.lower())[:1500]
+            lines = log.splitlines()
+            keep = []
+            for k, l in enumerate(lines):
+                if 'error' in l.lower():
+                    keep += lines[k:k + 12]
+            errs = ('obligations of BtcVerif/Tables/%s.lean (%s) against the table regenerated from the working '
+                    'tree:\n' % (g, ', '.join(theorems_in('BtcVerif/Tables/%s.lean' % g)))
+                    + '\n'.join(keep))[:3000]
             out['broken_ties'].append((name, errs or log[-1500:]))
             tables[g] = 'obligation-failed'
         else:
